@@ -235,6 +235,33 @@ func ScaffoldBigNibble() Scaffold {
 	}}
 }
 
+// ScaffoldBigAlias builds a 257-bit root whose labels below 0x3f are exactly the
+// control bytes 0x01 and 0x02 (all others >= 0x40), so the first 64-bit word of
+// its bitmap equals the 17-bit bitmap of a node with nibble labels {1,2}; 16
+// such 17-bit nodes make that bitmap the most used one (short table).  Code that
+// confuses a big node with a table-compressed one is exposed.  S hangs below 0x01.
+func ScaffoldBigAlias() Scaffold {
+	name := "bigalias"
+	return Scaffold{name, func(S []string) *Scaffolded {
+		var fixed []string
+		fixed = append(fixed, "\x02")
+		for i := 0; i < 10; i++ {
+			fixed = append(fixed, string([]byte{byte(0x41 + i*0x11)}))
+		}
+		// 16 one-node subtries with nibble labels {1,2} below byte 0x40 (two levels
+		// down, so that the node under 0x40 has at most 8 children and is not big)
+		for j := 0; j < 16; j++ {
+			p := string([]byte{0x40, byte(0x30 + j%8), byte(0x50 + j/8)})
+			fixed = append(fixed, p+"\x15", p+"\x25")
+		}
+		P := "\x01"
+		if len(S) == 0 {
+			fixed = append(fixed, P)
+		}
+		return mk(name, fixed, S, func(q string) string { return P + q })
+	}}
+}
+
 // ScaffoldBigPair builds two 257-bit nodes (the root and the node under its first
 // label) whose label sets are equal except inside 64-bit word k of the 257-bit
 // bitmap (k = 0..3): the root carries byte x_k, the second node bytes y_k, y2_k,
@@ -446,6 +473,34 @@ func ScaffoldFixed(name string, filler []string, P string) Scaffold {
 	return Scaffold{name, func(S []string) *Scaffolded {
 		return mk(name, filler, S, func(q string) string { return P + q })
 	}}
+}
+
+// SweepFiller returns k groups that each add exactly one inner node BEFORE the
+// subtree under first byte 0xff in breadth-first order and at the same level
+// (first bytes 0x00..; every group is a node with its own, distinct label set so
+// that no short table forms).  With S lifted under 0xff, S's root moves by one
+// inner node per k: over k = 0..63 it takes every bit offset modulo 64 in Inners,
+// and its leaves every offset in the leaf-indexed arrays.
+func SweepFiller(k int) []string {
+	var keys []string
+	// distinct label sets: pairs (a,b) of high nibbles, then triples
+	type ls []int
+	var sets []ls
+	for a := 0; a < 16; a++ {
+		for b := a + 1; b < 16; b++ {
+			sets = append(sets, ls{a, b})
+		}
+	}
+	for a := 0; a < 14; a++ {
+		sets = append(sets, ls{a, a + 1, a + 2})
+	}
+	for j := 0; j < k; j++ {
+		p := string([]byte{byte(j)})
+		for _, n := range sets[j%len(sets)] {
+			keys = append(keys, p+string([]byte{byte(n)<<4 | 0x03}))
+		}
+	}
+	return keys
 }
 
 // ShiftFiller returns k two-key groups that sort before prefix 0xb0 and add one
